@@ -33,6 +33,12 @@ Fixpoint upd_nat {A} (l : list A) (n : nat) (v : A) : option (list A) :=
 Definition zupd {A} (l : list A) (i : Z) (v : A) : option (list A) :=
   if i <? 0 then None else upd_nat l (Z.to_nat i) v.
 
+(* selection by a generated argument-position function: the translator emits, for an argument
+   expression, a function that returns its first parameter when the expression is the first
+   candidate and its second when it is the second; the model applies it to 0 1 *)
+Definition pick2 {A} (sel : Z) (x y : A) : option A :=
+  if sel =? 0 then Some x else if sel =? 1 then Some y else None.
+
 (* `type seq struct { i, n int; prev *seq }`; a *seq is either the sentinel &zero (i = n = 0,
    prev = nil) or a cell allocated in the loop. *)
 Inductive cell : Set :=
@@ -64,8 +70,11 @@ Section Lcs.
       if lcs_i_cond i (zlen xs) then
         match znth xs (lcs_as_idx i), znth ys (lcs_bs_idx j) with
         | Some a, Some b =>
+          (* eq(as[i-1], bs[j-1]): the argument order is generated *)
+          match pick2 (lcs_eq_arg0 0 1) a b, pick2 (lcs_eq_arg1 0 1) a b with
+          | Some ea, Some eb =>
           let step :=
-            if eqb a b then
+            if eqb ea eb then
               (* c[i] = &seq{i - 1, p[i-1].n + 1, p[i-1]}: the three fields are the generated
                  lcs_cell_i, lcs_cell_n and (a selector among the neighbour cells) lcs_cell_prev *)
               match znth p (lcs_diag_idx_n i), lcs_cell_pick i p c with
@@ -94,6 +103,8 @@ Section Lcs.
           match step with
           | Some c' => lcs_fill fuel' xs ys j (lcs_i_next i) p c'
           | None => None
+          end
+          | _, _ => None
           end
         | _, _ => None
         end
